@@ -55,6 +55,16 @@ fn main() {
     if args[0] == "--aux" {
         std::process::exit(checks::aux(&args[1..]))
     }
+    if env::var_os("RTV_LOG").is_some() {
+        struct L;
+        impl log::Log for L {
+            fn enabled(&self, _: &log::Metadata) -> bool { true }
+            fn log(&self, r: &log::Record) { eprintln!("[{}] {}", r.level(), r.args()) }
+            fn flush(&self) { }
+        }
+        let _ = log::set_boxed_logger(Box::new(L));
+        log::set_max_level(log::LevelFilter::Debug);
+    }
     let id = args[0].clone();
     let mut tier = match env::var("VERIF_TIER").ok().as_deref() {
         Some("thorough") => Tier::Thorough,
